@@ -68,6 +68,50 @@ def run(run):
         binds = SL.slot_bindings(F, fn, "jmp::Jmp", "Call", "target")
         assigned = {T.root_var_id(n["l"]) for n in T.walk_fn(F, fn) if n.get("k") == "Assign"}
         run.check("R1", "retarget_nonexisting|Jmp::Call.target", any(b[0] in assigned for b in binds), "calls to non-existing callees are not redirected to the artificial sink sub", F.loc(fn["body"]))
+        # first-match order: when several slots of one jump dangle, the arm that fires first must repair all of them
+        ms = T.find_matches(fn["body"], adt_suffix="jmp::Jmp")
+        if not ms:
+            raise T.AnchorMissing("no match over Jmp in retarget_nonexisting_jump_targets_to_artificial_sink")
+        m = ms[0]
+        jmp_adt = F.adt("intermediate_representation::jmp::Jmp")
+        import itertools
+        for v in F.variants(jmp_adt):
+            vslots = [f for (vv, f) in SL.fields_of_type(F, "intermediate_representation::jmp::Jmp", SL.is_tid_ty) if vv == v]
+            if len(vslots) < 2:
+                continue
+            arms = []
+            for arm in m["arms"]:
+                if v not in T.pat_variant_names(arm["p"]):
+                    continue
+                bind = {}  # local id -> slot
+                for vp in SL.variant_subpatterns(arm["p"], "jmp::Jmp", v):
+                    for f in vslots:
+                        sp = T.pat_field(vp, f)
+                        if sp is not None:
+                            for (i, n, _) in T.pat_bindings(sp):
+                                bind[i] = f
+                gslots = set()
+                if "g" in arm:
+                    for y in T.walk(arm["g"]):
+                        if y.get("k") in ("Var", "Upvar") and y["id"] in bind:
+                            gslots.add(bind[y["id"]])
+                fixes = set()
+                for y in T.walk(arm["b"]):
+                    if y.get("k") == "Assign":
+                        r = T.root_var_id(y["l"])
+                        if r in bind:
+                            fixes.add(bind[r])
+                arms.append((gslots, fixes, arm))
+            for k in range(1, len(vslots) + 1):
+                for D in itertools.combinations(vslots, k):
+                    Dset = set(D)
+                    first = next(((g, fx, a) for (g, fx, a) in arms if g and g <= Dset or (g & Dset)), None)
+                    key = "retarget_nonexisting|%s|dangling:%s" % (v, "+".join(D))
+                    if first is None:
+                        run.violated("R1", key, "no arm repairs a Jmp::%s whose %s dangle" % (v, list(D)), F.loc(m))
+                    else:
+                        g, fx, a = first
+                        run.check("R1", key, Dset <= fx, "for a Jmp::%s whose %s do not exist the first arm that fires (guard on %s) repairs only %s: the other reference stays dangling (match arms are first-match; order matters)" % (v, list(D), sorted(g), sorted(fx)), F.loc(a["b"]))
         f_all = F.fn("find_all_jump_targets", adt="Project")
         t = S.Sym(F).term(f_all["body"])
         ins = [x for x in S.subterms(t) if is_call(x, "insert")]
